@@ -16,8 +16,23 @@ import (
 type srDef struct {
 	def      string
 	lon, lat float64
-	class    string // wgs | d3 | d7 | none | grid | named | bad
+	class    string // wgs | wgsl | d3 | d7 | none | grid | named | bad
 }
+
+// WKT definitions (no blanks inside, so that they survive the line format).  Their datum code is the
+// lower-case "wgs84" (wkt.go datumRename), which checkNotWGS must recognise as WGS84 (fix b165df1).
+const wktGeogWGS = `GEOGCS["GCS_WGS_1984",DATUM["D_WGS_1984",SPHEROID["WGS_1984",6378137,298.257223563]],PRIMEM["Greenwich",0],UNIT["Degree",0.017453292519943295]]`
+
+func wktProj(name, projection, params, unit string) string {
+	return `PROJCS["` + name + `",` + wktGeogWGS + `,PROJECTION["` + projection + `"],` + params + `,` + unit + `]`
+}
+
+var (
+	wktUTM33 = wktProj("WGS_1984_UTM_Zone_33N", "Transverse_Mercator", `PARAMETER["latitude_of_origin",0],PARAMETER["central_meridian",15],PARAMETER["scale_factor",0.9996],PARAMETER["false_easting",500000],PARAMETER["false_northing",0]`, `UNIT["Meter",1]`)
+	wktMerc  = wktProj("World_Mercator", "Mercator", `PARAMETER["central_meridian",0],PARAMETER["false_easting",0],PARAMETER["false_northing",0]`, `UNIT["Meter",1]`)
+	wktLCC   = wktProj("lcc_us_ft", "Lambert_Conformal_Conic", `PARAMETER["standard_parallel_1",33],PARAMETER["standard_parallel_2",45],PARAMETER["latitude_of_origin",40],PARAMETER["central_meridian",-97],PARAMETER["false_easting",0],PARAMETER["false_northing",0]`, `UNIT["Foot_US",0.3048006096012192]`)
+	wktAEA   = wktProj("albers", "Albers_Conic_Equal_Area", `PARAMETER["standard_parallel_1",29.5],PARAMETER["standard_parallel_2",45.5],PARAMETER["latitude_of_origin",23],PARAMETER["central_meridian",-96],PARAMETER["false_easting",0],PARAMETER["false_northing",0]`, `UNIT["Meter",1]`)
+)
 
 var catalogue = []srDef{
 	// WGS84-equivalent datums (no hop)
@@ -43,6 +58,17 @@ var catalogue = []srDef{
 	{"+proj=utm +zone=33 +ellps=bessel +towgs84=598.1,73.7,418.2,0.202,0.045,-2.455,6.7 +R_A", 15, 50, "d7"},
 	{"+proj=tmerc +lat_0=0 +lon_0=9 +k=1 +x_0=0 +y_0=0 +ellps=intl +R_A +to_meter=0.3048 +pm=paris +towgs84=-87,-98,-121", 12, 45, "d3"},
 	{"+proj=eqdc +lat_0=40 +lon_0=10 +lat_1=30 +lat_2=50 +x_0=0 +y_0=0 +ellps=bessel +R_A", 10, 40, "none"},
+	// WGS84 with the datum code in lower case: WKT references and `+datum=wgs84` (checkNotWGS compares
+	// the code case-insensitively since fix b165df1; against a 3-/7-parameter source the hop is decided by it)
+	{wktGeogWGS, 10, 50, "wgsl"},
+	{`GEOGCS["WGS_84",DATUM["WGS_1984",SPHEROID["WGS_84",6378137,298.257223563]],PRIMEM["Greenwich",0],UNIT["degree",0.0174532925199433]]`, 10, 50, "wgsl"},
+	{wktUTM33, 15, 50, "wgsl"},
+	{wktMerc, 20, 30, "wgsl"},
+	{wktLCC, -97, 40, "wgsl"},
+	{wktAEA, -96, 35, "wgsl"},
+	{"+proj=longlat +datum=wgs84", 10, 50, "wgsl"},
+	{"+proj=utm +zone=33 +datum=wgs84", 15, 50, "wgsl"},
+	{"+proj=longlat +ellps=WGS84 +datum=Wgs84 +no_defs", 10, 50, "wgsl"},
 	// 3-parameter datums (hop through WGS84 unless the other side says +datum=WGS84)
 	{"+proj=longlat +datum=potsdam", 10, 51, "d3"},
 	{"+proj=tmerc +lat_0=0 +lon_0=9 +k=1 +x_0=3500000 +y_0=0 +datum=potsdam +units=m", 9, 51, "d3"},
@@ -194,7 +220,7 @@ type histGen struct {
 // decorated definition: catalogue entry, possibly with a non-default axis order / prime meridian
 func (g *histGen) decorate(i int, axisP float64) string {
 	d := catalogue[i].def
-	if catalogue[i].class == "named" {
+	if catalogue[i].class == "named" || !strings.HasPrefix(d, "+") { // registry names and WKT take no PROJ.4 parameters
 		return d
 	}
 	if g.r.Chance(axisP) {
@@ -306,6 +332,11 @@ func (g *histGen) line(kind int) string {
 		idx = []int{pick("named"), pick("named"), pick("d3", "d7"), pick("wgs", "d3")}
 	case 6: // grid shifts and failing constructors
 		idx = []int{pick("grid"), pick("grid"), pick("wgs", "d3", "named"), pick("bad", "grid", "none")}
+	case 7: // lower-case WGS84 datum code (WKT, +datum=wgs84) against shifted datums: the hop test reads the code
+		idx = []int{pick("d3", "d7"), pick("wgsl"), pick("wgsl", "wgs", "named"), pick("d3", "d7", "wgsl")}
+		if r.Chance(0.5) {
+			idx[0], idx[1] = idx[1], idx[0]
+		}
 	default:
 		n := r.Range(2, 5)
 		for i := 0; i < n; i++ {
@@ -433,13 +464,20 @@ func gen(seed uint64, tier string) {
 	// the forward + inverse pair of a +R_A reference, the inverse built between two calls of the forward
 	fixed = append(fixed, "h 2 WGS84 "+enc("+proj=merc +lon_0=0 +k=1 +x_0=0 +y_0=0 +ellps=WGS84 +R_A +units=m +no_defs")+
 		" | 2 0 1 1 0 | 3 0 "+F(10)+" "+F(45)+" 0 "+F(10)+" "+F(45)+" 1 "+F(1111121)+" "+F(5590912)+" | 1 1 1")
+	// 3-parameter source, WKT WGS84 destination (datum code "wgs84"), forward and back; then the same through
+	// `+datum=wgs84`: the hop is decided by the case-insensitive comparison of the code (fix b165df1)
+	fixed = append(fixed,
+		"h 2 "+enc("+proj=longlat +datum=potsdam")+" "+enc(wktUTM33)+
+			" | 2 0 1 1 0 | 4 0 "+F(14)+" "+F(50)+" 1 "+F(428205)+" "+F(5538987)+" 0 "+F(14)+" "+F(50)+" 1 "+F(428205)+" "+F(5538987),
+		"h 3 "+enc("+proj=longlat +ellps=bessel +towgs84=598.1,73.7,418.2,0.202,0.045,-2.455,6.7")+" "+enc("+proj=longlat +datum=wgs84")+" "+enc(wktGeogWGS)+
+			" | 4 0 1 1 0 0 2 2 0 | 5 0 "+F(10)+" "+F(50)+" 1 "+F(10)+" "+F(50)+" 2 "+F(10)+" "+F(50)+" 3 "+F(10)+" "+F(50)+" 0 "+F(10)+" "+F(50))
 	for _, l := range fixed {
 		emit(l)
 	}
 	genGT(r, nGT, emit)
 	hg := &histGen{r: r}
 	for i := 0; i < nH; i++ {
-		emit(hg.line(i % 9))
+		emit(hg.line(i % 10))
 		if i%5 == 0 {
 			emit(hg.optLine())
 		}
